@@ -90,6 +90,12 @@ class C05(Prop):
                     out.append(case("return (%s || %s);" % (ea, eb), opsa, objsa, "b1" if (ta or tb) else "b0", "or-" + pn))
                     out.append(case("return (%s && %s);" % (eb, ea), opsa, objsa, "b1" if (ta and tb) else "b0", "and-r-" + pn))
                     out.append(case("return (%s || %s);" % (eb, ea), opsa, objsa, "b1" if (ta or tb) else "b0", "or-r-" + pn))
+        # random conditions over values of every type and origin, judged against the model
+        import gen
+        for _ in range(30000 if tier == "thorough" else 300):
+            src = gen.truth_program(rng)
+            ops = ["prepare:" + rng.choice(["opt", "noopt"]), rng.choice(["exec:0", "run:0"])]
+            out.append(Case("run", gen.struct_case(rng, src, ops), "random-truth", note=src))
         return out
 
 PROP = C05()
